@@ -340,3 +340,23 @@ def finish(ctx, rep, lean, level_note_axioms=True):
           f"cases={rep.evaluations} distinct={len(rep.keys)} disagreements={len(rep.disagreements)} "
           f"failures={len(rep.failures)} known={sorted(rep.known_hits)} wall={ev['wall_s']}s exit={exit_code}")
     return exit_code
+
+
+class CallTimeout(Exception):
+    pass
+
+
+def call_with_timeout(seconds, fn, *a, **k):
+    """run fn(*a, **k) in the main thread; raise CallTimeout if it does not return within `seconds`
+    (used for library calls that may loop forever, e.g. rejection sampling)"""
+    import signal
+
+    def handler(signum, frame):
+        raise CallTimeout(f"call did not return within {seconds}s")
+    old = signal.signal(signal.SIGALRM, handler)
+    signal.setitimer(signal.ITIMER_REAL, seconds)
+    try:
+        return fn(*a, **k)
+    finally:
+        signal.setitimer(signal.ITIMER_REAL, 0)
+        signal.signal(signal.SIGALRM, old)
